@@ -572,13 +572,38 @@ fn write_evidence(
     threads: usize,
 ) {
     let per_hour = |x: u64| -> u64 { if wall > 0.0 { (x as f64 * 3600.0 / wall) as u64 } else { 0 } };
+    // the python-bridge stage runs before the search (see ./check); its summary is part of the evidence
+    let bridge: serde_json::Value = std::env::var("VERIF_BRIDGE_SUMMARY")
+        .ok()
+        .and_then(|p| std::fs::read_to_string(p).ok())
+        .and_then(|t| serde_json::from_str(&t).ok())
+        .unwrap_or(serde_json::Value::Null);
+    let bridge_div = bridge.get("summary").and_then(|s| s.get("divergences")).and_then(|d| d.as_u64()).unwrap_or(0);
+    let mut real = vec![
+        "src/engine.rs (PPGEvaluator, compiled from /repo working tree with cfg tyberiusprime_pypipegraph2_verif)".to_string(),
+        "src/lib.rs error and strategy types".to_string(),
+        "src/verif_seam.rs hooks".to_string(),
+    ];
+    let mut stub = vec![
+        "python runner (simulated driver/scheduler)".to_string(),
+        "job execution (world model)".to_string(),
+        "history persistence".to_string(),
+    ];
+    if bridge.is_null() {
+        stub.push("file system (world model)".to_string());
+        stub.push("history_comparisons.py (re-implemented comparison)".to_string());
+        stub.push("PyO3 class PPG2Evaluator / StrategyForPython (not exercised)".to_string());
+    } else {
+        real.push("python-bridge stage only: src/lib.rs PyO3 class PPG2Evaluator and StrategyForPython (cdylib built from the working tree, driven from python3), python/pypipegraph2/history_comparisons.py, real files in a scratch directory for output_already_present".to_string());
+        stub.push("in the search itself: file system (world model), history_comparisons.py (re-implemented comparison, cross-checked), PyO3 class not exercised".to_string());
+    }
     let ev = json!({
         "property_id": prop,
         "tier": tier,
         "seed": seed,
         "level": level_of(prop),
         "wall_s": wall,
-        "violations": replays.len(),
+        "violations": replays.len() + if bridge_div > 0 { 1 } else { 0 },
         "coverage": {
             "evaluations": agg.rep.evaluations,
             "distinct_nontrivial": agg.shapes_nontrivial.len(),
@@ -610,10 +635,9 @@ fn write_evidence(
             "violations_of_other_properties_seen_listed_as_known_findings": agg.other_props_listed,
             "determinism_sample": {"re_executed": agg.determinism_checked, "mismatches": agg.determinism_mismatch},
             "threads": threads,
-            "components": {
-                "real": ["src/engine.rs (PPGEvaluator, compiled from /repo working tree with cfg tyberiusprime_pypipegraph2_verif)", "src/lib.rs error and strategy types", "src/verif_seam.rs hooks"],
-                "stub": ["python runner (simulated driver/scheduler)", "job execution and file system (world model)", "history_comparisons.py (re-implemented comparison)", "history persistence"]
-            }
+            "python_bridge": bridge,
+            "python_bridge_rule": "the first scenarios of this profile (the ones generation 0 of the search runs), every evaluation they perform (twin runs, resume triples, abort sweeps included), replayed call by call through the real PyO3 class from python3 with seeded hashing; results, query sets, history and reported outputs must equal the direct run",
+            "components": { "real": real, "stub": stub }
         },
         "assumptions": [
             "the world model (deterministic content functions keyed by output part) stands in for real jobs",
@@ -873,6 +897,38 @@ fn cmd_digest(prop: &str, from: u64, count: u64, threads: usize) -> i32 {
     0
 }
 
+/// bridge traces: the first scenarios of a profile (the same ones generation 0 of `check` runs), every
+/// evaluation they perform (twin runs, resume triples and abort sweeps included) as one JSON line with
+/// every engine call, its result and the query results after it; consumed by tools/pybridge_replay.py
+fn cmd_bridgetrace(prop: &str, from: u64, scenarios: u64, base_seed: u64, max_evals: usize) -> i32 {
+    use std::io::Write;
+    let gp = gen::params_for(prop, false);
+    let opts = RunOpts { prop: prop.to_string(), thorough: false };
+    let corpus = load_corpus();
+    let stdout = std::io::stdout();
+    let mut w = std::io::BufWriter::new(stdout.lock());
+    let mut evals = 0usize;
+    let mut per_scenario_cap = 40usize;
+    if prop == "C09" || prop == "C10" {
+        per_scenario_cap = 60;
+    }
+    for i in from..from + scenarios {
+        if evals >= max_evals {
+            break;
+        }
+        let sc = scenario_for(&corpus, &gp, base_seed, i);
+        driver::bridge_trace_enable(true);
+        let _ = run_scenario(&sc, &opts);
+        driver::bridge_trace_enable(false);
+        let lines = driver::bridge_trace_take();
+        for (k, l) in lines.iter().take(per_scenario_cap).enumerate() {
+            let _ = writeln!(w, "{{\"scenario\":{},\"seed\":{},\"eval\":{},\"t\":{}}}", i, sc.seed, k, l);
+            evals += 1;
+        }
+    }
+    0
+}
+
 fn main() {
     std::panic::set_hook(Box::new(|_| {}));
     let args: Vec<String> = std::env::args().collect();
@@ -899,6 +955,7 @@ fn main() {
         }
         Some("survey") if args.len() >= 4 => cmd_survey(&args[2], args[3].parse().unwrap_or(1000), args.iter().any(|a| a == "--thorough")),
         Some("digest") if args.len() >= 6 => cmd_digest(&args[2], args[3].parse().unwrap(), args[4].parse().unwrap(), args[5].parse().unwrap()),
+        Some("bridgetrace") if args.len() >= 7 => cmd_bridgetrace(&args[2], args[3].parse().unwrap(), args[4].parse().unwrap(), args[5].parse().unwrap(), args[6].parse().unwrap()),
         Some("c19case") => big::cmd_case(&args[2..]),
         Some("family") if args.len() >= 4 => big::cmd_family_scenario(&args[2..]),
         Some("shrinkfile") if args.len() >= 5 => cmd_shrinkfile(&args[2], &args[3], &args[4]),
